@@ -109,13 +109,17 @@ def validateConflicts (c : Cmd) (m : ArgMap) (pot : List (Id × List Id)) : Exce
         | some _ => .error .argumentConflict
     go ((explicitIds m).filter fun id => (c.find id).isSome)
 
+/-- enough iterations for the work list of `unroll_arg_requires` to run dry: every arg is expanded at most once and
+pushes at most one item per `requires` entry (`ClapProofs.C03Closure.unroll_complete`) -/
+def requiresFuel (c : Cmd) : Nat := (c.args.map fun a => a.requires.length).sum + 2
+
 /-- `gather_requires`: the ids added to the required graph -/
 def gatherRequires (c : Cmd) (m : ArgMap) : List Id :=
   (m.filter fun p => p.2.checkExplicit .isPresent).flatMap fun p =>
     match c.find p.1 with
     | some a =>
       unrollArgRequires c (fun (pr : Pred × Id) => if p.2.checkExplicit pr.1 then some pr.2 else none)
-        (c.args.length * c.args.length + c.args.length + 2) [a.id] [] []
+        (requiresFuel c) [a.id] [] []
     | none =>
       match c.findGroup p.1 with
       | some g => g.requires
